@@ -29,6 +29,12 @@ void event_init(struct event* e) { e->state_ = 0; }
 void event_destroy(struct event* e) {}
 /* referenced by the thread bodies that are compiled in but never run here (needed by the native replay link) */
 uint64_t clock_tic(struct clock* c) { return 0; }
+void clock_init(struct clock* c) { c->origin = 0; }
+void clock_shift_ms(struct clock* c, double ms) {}
+int8_t clock_cmp(struct clock* c, uint64_t t) { return 0; }
+int64_t clock_toc(struct clock* c) { return 0; }
+double clock_toc_ms(struct clock* c) { return 0; }
+void clock_sleep_ms(struct clock* c, float ms) {}
 void event_notify_all(struct event* e) { e->state_ = 1; }
 static void cb_sink(const struct video_sink_s* s) {}
 int
